@@ -117,6 +117,31 @@ def tag_facts(path):
     for c in path.constraints:
         if c[0][0] == 'switch' and is_binop(c[0][1], 'Eq') and truth(c):
             pass
+    # a tag established by exclusion: the tests taken on the path (match arms passed over, `tag != X`, predicates of Type such as
+    # `ordered()`) leave exactly one type possible
+    try:
+        from rules.c05 import _tag_atoms
+        import mirlib as _ml
+        F_ = _ml.CURRENT_FACTS
+        allv = {n for n, _ in F_.enum_variants(TYPE)} if F_ is not None else None
+        if allv:
+            groups = []
+            for o_, ty_, tv_ in _tag_atoms(path, env):
+                g_ = next((g for g in groups if same(g[0], o_)), None)
+                if g_ is None:
+                    g_ = [o_, set(allv)]
+                    groups.append(g_)
+                if isinstance(ty_, tuple):
+                    g_[1] &= set(ty_[1])
+                elif tv_:
+                    g_[1] &= {ty_}
+                else:
+                    g_[1] -= {ty_}
+            for o_, poss_ in groups:
+                if len(poss_) == 1 and not any(same(o_, o2) and t2 in poss_ for o2, t2 in known):
+                    known.append((o_, next(iter(poss_))))
+    except ImportError:
+        pass
     changed = True
     while changed:
         changed = False
